@@ -11,13 +11,21 @@
   `activated := False`; `IpmiMsg.pack` advances the session sequence number only `if activated`).
   `Cfg.join` selects what the stopper returned by `call_repeatedly` does: `false` = as shipped
   (`stopped.set`), `true` = set the event and join the thread (fixes/C14-1.diff).
+  Retransmissions: `Cfg.maxRetries` is `Rmcp(max_retries=…)` (ANY number), `Cfg.loss` the loss plan of the
+  network (the reply to datagram number k is lost iff `loss[k]`; ANY list — every loss pattern, for application
+  threads, the keep-alive and Close Session alike): a thread whose reply is lost times out and, inside the SAME
+  lock hold, packs again (`IpmiMsg.pack` takes the next session sequence number) and transmits again, at most
+  `maxRetries` times per call; then the call ends in an error.  `Cfg.packOnce` is the variant "the session wrapper
+  is built once, before the retry loop" (NOT the source: `source_is_safe_variant`).
   Spec:  `PyIpmi.Spec.Threads.accepts` — the clauses of the property as a monitor over the wire log and
   the per-call results: (X) exchanges not interleaved, (S) session sequence numbers strictly
-  increasing, (O) every caller its own reply, (C) nothing is transmitted after Close Session.
+  increasing over the whole log, retransmissions included, (O) every caller its own reply — or an error after a
+  time-out on its own datagram —, (C) nothing is transmitted after Close Session (but its own retransmission).
 
-  For EVERY configuration with `Cfg.Safe` (the stopper joins — or nobody closes the session —; any
-  number of threads, calls per thread and timer ticks, any initial counters, none/password/MD5
-  packing) and EVERY schedule (any list of thread ids — not a preemption bound):
+  For EVERY configuration with `Cfg.Safe` (the stopper joins — or nobody closes the session —; the wrapper is
+  packed per attempt — or there is no second attempt —; any number of threads, calls per thread and timer ticks,
+  any initial counters, none/password/MD5 packing, ANY retry budget and ANY loss plan) and EVERY schedule (any
+  list of thread ids — not a preemption bound):
 
   * `source_shape`               the lock scope, the place of the packing and of both sequence-number
                                  updates, the keep-alive loop, `close_session` and the `activated` guard of
@@ -35,13 +43,23 @@
   * `no_deadlock`                while a thread has work left, some thread can move — in particular the
                                  join cannot deadlock
   * `steps_bounded`              every effective step decreases a natural-number measure
+  * `own_reply_or_timeout_error` every finished call returned the reply to the datagram its caller transmitted last,
+                                 or failed after the socket had timed out on that datagram, whose reply the loss
+                                 plan says was lost; `lossless_no_call_fails`: without losses no call fails
   * `maximal_runs_complete`      in a reachable state where nothing can move, every thread is finished,
-                                 every application thread made all its calls, each call got its own reply
+                                 every application thread made all its calls, each call got its own reply (or such
+                                 an error); `maximal_runs_complete_lossless`: … and the session is deactivated
+  * `packOnce_retransmission_repeats_session_seq`  the variant "wrapper built once before the retry loop": with
+                                 max_retries = 1 and the first reply lost the wire shows session sequence numbers
+                                 N, N, N+1 — clause (S) is false on that run (the same configuration with the
+                                 per-attempt packing of the source: N, N+1, N+2, all clauses hold)
   * `accepted_trace_ok`          trace validation is sound: a logged access sequence that the
                                  model accepts ends in a state whose wire log and results the
                                  monitor accepts (used by the correspondence: the real wire log
                                  must equal the model's)
-  * `rq_seq_distinct_on_wire`    with the sequence number allocated inside the lock block (`seqLocked`): under
+  * `rq_seq_distinct_on_wire`    with the sequence number allocated inside the lock block (`seqLocked`) and no
+                                 retransmissions (`maxRetries = 0`: a retransmission repeats, as IPMI intends, the
+                                 request sequence number of the datagram it repeats): under
                                  EVERY schedule every transmitted datagram carries an IPMB request sequence
                                  number different from the one transmitted before it, whichever threads sent
                                  them (clause (Q) of Spec/Threads.lean; property C04 words it, its quantifier
@@ -54,8 +72,9 @@
                                  datagrams with the same request sequence number and command on the wire
                                  ((Q) is false; the fault-free clauses X, S, O, C still hold on that run, which
                                  is why only a late reply makes the defect observable: the check withholds one)
-  * `source_is_safe_variant`, `source_cfg_safe`, `today_all_schedules`  TODAY's source is the safe variant of both
-                                 (stopper joins; number allocated inside the lock block), so the theorems above
+  * `source_is_safe_variant`, `source_cfg_safe`, `today_all_schedules`  TODAY's source is the safe variant of all three
+                                 (stopper joins; number allocated inside the lock block; wrapper packed by the
+                                 transmission of every attempt), so the theorems above
                                  hold for its configurations with no variant hypothesis left
   * `shipped_without_close_holds`  the variant AS SHIPPED satisfies all of the above as long as no thread
                                  closes the session (the close-free case: the theorems of the first version)
@@ -80,36 +99,43 @@ open PyIpmi.Threads PyIpmi.Spec.Threads
 working tree, is the one the step function of the model hard-wires (one lock block holding packing,
 transmission and reception; sequence bump before it; nothing re-queued; the keep-alive and both public
 entry points run this program; the loop looks at the event only in `wait`; `close_session` = stopper,
-`activated` test, locked Close Session, `activated = False`).  The stopper's behaviour and the place of the
-sequence-number allocation (inside the lock block or before it) are the model's variants.  A change of that shape in `/repo` regenerates `Gen/Threads.lean` and this stops being provable. -/
+`activated` test, locked Close Session, `activated = False`; the retry loop with the one transmission per attempt and
+the inner receive loop).  The stopper's behaviour, the place of the
+sequence-number allocation (inside the lock block or before it) and the place of the packing (by the transmission of
+every attempt, or once before the retry loop) are the model's variants.  A change of that shape in `/repo` regenerates `Gen/Threads.lean` and this stops being provable. -/
 theorem source_shape : PyIpmi.Gen.Threads.shape =
-    Shape.expected PyIpmi.Gen.Threads.shape.stopperJoins PyIpmi.Gen.Threads.shape.seqInLock := by
+    Shape.expected PyIpmi.Gen.Threads.shape.stopperJoins PyIpmi.Gen.Threads.shape.seqInLock
+      PyIpmi.Gen.Threads.shape.packPerAttempt := by
   decide
 
-/-- … and TODAY's source is the SAFE variant of both: the stopper joins the keep-alive thread and the
-sequence number is allocated inside the lock block.  The property theorems below are stated for `Cfg.Safe`
+/-- … and TODAY's source is the SAFE variant of all three: the stopper joins the keep-alive thread, the
+sequence number is allocated inside the lock block, and the session wrapper is packed by the transmission of every
+attempt (so a retransmission takes the next session sequence number).  The property theorems below are stated for `Cfg.Safe`
 configurations (resp. `seqLocked = true`); without this equation nothing in this file says that the tree is
 such a configuration (only the harness's probe did), and a regression to "set only" / "allocate before the
 lock" would leave every theorem building.  With it `source_cfg_safe` discharges the variant hypotheses for
 the configurations of today's source (`today_*` corollaries), and such a regression stops the build; the
 run's directed schedules (interval elapses just before the stopper; both threads load the counter before
 either stores) then produce the failing schedule. -/
-theorem source_is_safe_variant : PyIpmi.Gen.Threads.shape = Shape.expected true true := by
+theorem source_is_safe_variant : PyIpmi.Gen.Threads.shape = Shape.expected true true true := by
   decide
 
 /-- a test configuration with the variant flags the translator read from today's source -/
 def ofSource (c : Cfg) : Cfg :=
-  { c with join := PyIpmi.Gen.Threads.shape.stopperJoins, seqLocked := PyIpmi.Gen.Threads.shape.seqInLock }
+  { c with join := PyIpmi.Gen.Threads.shape.stopperJoins, seqLocked := PyIpmi.Gen.Threads.shape.seqInLock,
+           packOnce := !PyIpmi.Gen.Threads.shape.packPerAttempt }
 
 theorem source_cfg_safe (c : Cfg) (hcmd : ∀ p ∈ c.threads, p.2 ≠ closeCmd) :
     (ofSource c).Safe ∧ (ofSource c).seqLocked = true := by
   have h1 : PyIpmi.Gen.Threads.shape.stopperJoins = true := by rw [source_is_safe_variant]; rfl
   have h2 : PyIpmi.Gen.Threads.shape.seqInLock = true := by rw [source_is_safe_variant]; rfl
-  exact ⟨⟨Or.inl (by simp [ofSource, h1]), by simpa [ofSource] using hcmd⟩, by simp [ofSource, h2]⟩
+  have h3 : PyIpmi.Gen.Threads.shape.packPerAttempt = true := by rw [source_is_safe_variant]; rfl
+  exact ⟨⟨Or.inl (by simp [ofSource, h1]), by simpa [ofSource] using hcmd, Or.inl (by simp [ofSource, h3])⟩,
+    by simp [ofSource, h2]⟩
 
 theorem inv_all_schedules (c : Cfg) (hc : c.Safe) (hs : c.sessSeq ≤ 0xffffffff) (sched : List Nat) :
     Inv (run (init c) sched) ∧ Tear (run (init c) sched) :=
-  run_inv (init_inv c hs) (init_tear c hc) sched
+  run_inv (init_inv c hs hc.2.2) (init_tear c hc) sched
 
 theorem monitor_accepts_all_schedules (c : Cfg) (hc : c.Safe) (hs : c.sessSeq ≤ 0xffffffff) (sched : List Nat) :
     accepts (run (init c) sched).wireChron (run (init c) sched).results = true :=
@@ -124,21 +150,22 @@ theorem exchanges_not_interleaved (c : Cfg) (hc : c.Safe) (hs : c.sessSeq ≤ 0x
 
 /-- Clause (S): session sequence numbers appear strictly increasing in transmission order
 (up to the 32-bit wrap 0xffffffff → 1 that IPMI prescribes) — over the whole wire log, Close Session
-included. -/
+and every RETRANSMISSION included: for every retry budget, every loss plan, every schedule. -/
 theorem session_seq_increasing (c : Cfg) (hc : c.Safe) (hs : c.sessSeq ≤ 0xffffffff) (sched : List Nat) :
     seqIncreasing (run (init c) sched).wireChron = true := by
   have h := monitor_accepts_all_schedules c hc hs sched
   simp only [accepts, Bool.and_eq_true] at h
   exact h.1.1.2
 
-/-- Clause (O): each caller received the reply to its own request. -/
+/-- Clause (O): each caller received the reply to its own request — or an error, after a time-out on it. -/
 theorem own_reply (c : Cfg) (hc : c.Safe) (hs : c.sessSeq ≤ 0xffffffff) (sched : List Nat) :
     ownReply (run (init c) sched).wireChron (run (init c) sched).results = true := by
   have h := monitor_accepts_all_schedules c hc hs sched
   simp only [accepts, Bool.and_eq_true] at h
   exact h.1.2
 
-/-- Clause (C): no datagram — of any thread, the keep-alive included — follows Close Session. -/
+/-- Clause (C): no datagram — of any thread, the keep-alive included — follows Close Session (other than the
+retransmission of Close Session by its sender). -/
 theorem nothing_after_close_session (c : Cfg) (hc : c.Safe) (hs : c.sessSeq ≤ 0xffffffff) (sched : List Nat) :
     closeLast (run (init c) sched).wireChron = true := by
   have h := monitor_accepts_all_schedules c hc hs sched
@@ -193,35 +220,40 @@ def allDone (s : Sys) : Bool := s.thr.all fun th => th.pc == .done
 
 /-- With the sequence number allocated inside the lock block: for every configuration, every number of
 threads and calls, every schedule — consecutive transmissions carry different IPMB request sequence numbers. -/
-theorem rq_seq_distinct_on_wire (c : Cfg) (hl : c.seqLocked = true) (hc : c.Safe) (hs : c.sessSeq ≤ 0xffffffff)
+theorem rq_seq_distinct_on_wire (c : Cfg) (hl : c.seqLocked = true) (hm : c.maxRetries = 0) (hc : c.Safe)
+    (hs : c.sessSeq ≤ 0xffffffff)
     (sched : List Nat) : rqDistinct (run (init c) sched).wireChron = true := by
-  have hq := run_seq (init_inv c hs) (init_tear c hc) (init_seq c hl) sched
+  have hq := run_seq (init_inv c hs hc.2.2) (init_tear c hc) (init_seq c hl hm) sched
   rw [Sys.wireChron, ← rqOk_eq]
   exact hq.ok
 
 /-- … and whenever a thread is about to transmit, the number in its header is not the number of the
 latest datagram on the wire: a late reply to that datagram (it echoes its number) cannot pass the
 sequence comparison of this request's filter. -/
-theorem late_reply_cannot_match (c : Cfg) (hl : c.seqLocked = true) (hc : c.Safe) (hs : c.sessSeq ≤ 0xffffffff)
+theorem late_reply_cannot_match (c : Cfg) (hl : c.seqLocked = true) (hm : c.maxRetries = 0) (hc : c.Safe)
+    (hs : c.sessSeq ≤ 0xffffffff)
     (sched : List Nat) (t : Nat) (th : Thr) (h : (run (init c) sched).thr[t]? = some th) (hp : th.pc = .send)
     (r : Nat) (hr : lastRq (run (init c) sched).wire = some r) : r ≠ th.hdr := by
   have hi := inv_all_schedules c hc hs sched
-  have hq := run_seq (init_inv c hs) (init_tear c hc) (init_seq c hl) sched
+  have hq := run_seq (init_inv c hs hc.2.2) (init_tear c hc) (init_seq c hl hm) sched
   have hown : (run (init c) sched).lock = some t := (hi.1.owner t th h).mp (by rw [hp]; rfl)
   have hh := hq.holder t th h hown
   simp only [HolderSeq, hp] at hh
   exact hh.2 r hr
 
 /-- **Today's source, no variant hypothesis left**: for every number of threads, calls and keep-alive ticks,
-with or without a closing thread, every schedule — the monitor (clauses X, S, O, C, Q) accepts the run and
-consecutive transmissions carry different request sequence numbers. -/
+with or without a closing thread, EVERY retry budget (`max_retries`), EVERY loss plan, every schedule — the monitor
+(clauses X, S, O, C) accepts the run: in particular the session sequence numbers increase strictly over the whole
+wire log, retransmissions included; and without retransmissions (`max_retries = 0`) consecutive transmissions carry
+different request sequence numbers (clause Q). -/
 theorem today_all_schedules (c : Cfg) (hcmd : ∀ p ∈ c.threads, p.2 ≠ closeCmd) (hs : c.sessSeq ≤ 0xffffffff)
     (sched : List Nat) :
     accepts (run (init (ofSource c)) sched).wireChron (run (init (ofSource c)) sched).results = true
-    ∧ rqDistinct (run (init (ofSource c)) sched).wireChron = true := by
+    ∧ (c.maxRetries = 0 → rqDistinct (run (init (ofSource c)) sched).wireChron = true) := by
   obtain ⟨hsafe, hl⟩ := source_cfg_safe c hcmd
   have hs' : (ofSource c).sessSeq ≤ 0xffffffff := by simpa [ofSource] using hs
-  exact ⟨monitor_accepts_all_schedules _ hsafe hs' sched, rq_seq_distinct_on_wire _ hl hsafe hs' sched⟩
+  exact ⟨monitor_accepts_all_schedules _ hsafe hs' sched,
+    fun hm => rq_seq_distinct_on_wire _ hl (by simpa [ofSource] using hm) hsafe hs' sched⟩
 
 /-- two threads, one Get Device ID each, session sequence starting at 7; sequence number allocated before
 the lock (as shipped) -/
@@ -238,7 +270,7 @@ theorem racy_seq_asShipped_counterexample :
     allDone (run (init racyCfg) racySched2) = true ∧
     accepts (run (init racyCfg) racySched2).wireChron (run (init racyCfg) racySched2).results = true :=
   ⟨by decide, by decide, by decide, by decide,
-   monitor_accepts_all_schedules racyCfg ⟨Or.inl rfl, by decide⟩ (by decide) racySched2⟩
+   monitor_accepts_all_schedules racyCfg ⟨Or.inl rfl, by decide, Or.inl rfl⟩ (by decide) racySched2⟩
 
 /-- While some thread is neither finished nor (the keep-alive loop) asleep for good, some thread can
 move.  In particular the join cannot deadlock. -/
@@ -250,23 +282,66 @@ theorem no_deadlock (c : Cfg) (hc : c.Safe) (hs : c.sessSeq ≤ 0xffffffff) (sch
 theorem steps_bounded (s s' : Sys) (t : Nat) (h : step s t = some s') : measure s' < measure s :=
   step_decreases h
 
+/-- Every finished call, in every reachable state: it returned the reply to the datagram its caller transmitted
+(last) — or it failed, and then the socket had timed out on that datagram and the loss plan says its reply was lost
+(`Cfg.loss`): a call fails only when the network lost `max_retries + 1` replies in a row… -/
+theorem own_reply_or_timeout_error (c : Cfg) (hc : c.Safe) (hs : c.sessSeq ≤ 0xffffffff) (sched : List Nat)
+    (t : Nat) (th : Thr) (h : (run (init c) sched).thr[t]? = some th) (r : CallRes) (hr : r ∈ th.results) :
+    (∃ n, r = .ok n n ∧ sentBy (run (init c) sched).wireChron t n = true) ∨
+    (∃ n, r = .retryError n ∧ sentBy (run (init c) sched).wireChron t n = true ∧
+      timedOut (run (init c) sched).wireChron t n = true ∧ lostAt c.loss n = true) := by
+  have hp : (run (init c) sched).par.loss = c.loss := by rw [run_par]; rfl
+  rcases (inv_all_schedules c hc hs sched).1.res t th h r hr with ⟨n, h1, h2⟩ | ⟨n, h1, h2, h3, h4⟩
+  · exact Or.inl ⟨n, h1, by rw [Sys.wireChron, sentBy_reverse]; exact h2⟩
+  · exact Or.inr ⟨n, h1, by rw [Sys.wireChron, sentBy_reverse]; exact h2,
+      by rw [Sys.wireChron, timedOut_reverse]; exact h3, by rw [← hp]; exact h4⟩
+
+/-- … in particular: when the network loses nothing, no call fails, whatever the schedule. -/
+theorem lossless_no_call_fails (c : Cfg) (hc : c.Safe) (hs : c.sessSeq ≤ 0xffffffff)
+    (hl : ∀ n, lostAt c.loss n = false) (sched : List Nat)
+    (t : Nat) (th : Thr) (h : (run (init c) sched).thr[t]? = some th) (r : CallRes) (hr : r ∈ th.results) :
+    ∃ n, r = .ok n n ∧ sentBy (run (init c) sched).wireChron t n = true := by
+  rcases own_reply_or_timeout_error c hc hs sched t th h r hr with h1 | ⟨n, _, _, _, h4⟩
+  · exact h1
+  · rw [hl n] at h4; cases h4
+
 /-- In a reachable state where nothing can move: every thread is finished (the keep-alive loop:
 finished, or asleep with no interval left to elapse and nobody having stopped it), each call made got
-the reply to the datagram that same thread sent, every application thread other than the closing
+the reply to the datagram that same thread sent — or failed after a time-out on a datagram whose reply was
+lost —, every application thread other than the closing
 one made all its calls, and — if a thread closes the session — Close Session is on the wire (by
-`nothing_after_close_session`: as the last datagram), the session is deactivated and every thread,
-the keep-alive thread included, has terminated. -/
+`nothing_after_close_session`: followed by nothing but its own retransmission), every thread,
+the keep-alive thread included, has terminated, and the session is deactivated unless a call of the closing
+thread failed. -/
 theorem maximal_runs_complete (c : Cfg) (hc : c.Safe) (hs : c.sessSeq ≤ 0xffffffff) (sched : List Nat)
     (hterm : ∀ t, step (run (init c) sched) t = none) :
     (∀ (t : Nat) (th : Thr), (run (init c) sched).thr[t]? = some th → parked (run (init c) sched) th ∧
-      ∀ r ∈ th.results, ∃ n, r = .ok n n ∧ sentBy (run (init c) sched).wireChron t n = true) ∧
+      ∀ r ∈ th.results, (∃ n, r = .ok n n ∧ sentBy (run (init c) sched).wireChron t n = true) ∨
+        (∃ n, r = .retryError n ∧ timedOut (run (init c) sched).wireChron t n = true ∧
+          lostAt (run (init c) sched).par.loss n = true)) ∧
     (∀ (t : Nat) (p : Nat × Nat), c.threads[t]? = some p → c.closer ≠ some t →
       ∃ th, (run (init c) sched).thr[t]? = some th ∧ th.pc = .done ∧ th.results.length = p.1) ∧
     (∀ (t : Nat) (p : Nat × Nat), c.threads[t]? = some p → c.closer = some t →
-      (run (init c) sched).activated = false ∧ (monitor (run (init c) sched).wireChron).closed = true ∧
-      ∀ (t' : Nat) (th' : Thr), (run (init c) sched).thr[t']? = some th' → th'.pc = .done) :=
-  have h := run_all (init_inv c hs) (init_tear c hc) (init_close c) (init_acc c) sched
+      (monitor (run (init c) sched).wireChron).closed = true ∧
+      (∀ (t' : Nat) (th' : Thr), (run (init c) sched).thr[t']? = some th' → th'.pc = .done) ∧
+      ((run (init c) sched).activated = false ∨
+        ∃ th, (run (init c) sched).thr[t]? = some th ∧ ∃ r ∈ th.results, r.isOk = false)) :=
+  have h := run_all (init_inv c hs hc.2.2) (init_tear c hc) (init_close c) (init_acc c) sched
   terminal_complete h.1 h.2.1 h.2.2.1 h.2.2.2 hterm
+
+/-- … and when the network loses nothing: the closing thread leaves the session deactivated. -/
+theorem maximal_runs_complete_lossless (c : Cfg) (hc : c.Safe) (hs : c.sessSeq ≤ 0xffffffff)
+    (hl : ∀ n, lostAt c.loss n = false) (sched : List Nat)
+    (hterm : ∀ t, step (run (init c) sched) t = none) (t : Nat) (p : Nat × Nat)
+    (hp : c.threads[t]? = some p) (hcl : c.closer = some t) :
+    (run (init c) sched).activated = false ∧ (monitor (run (init c) sched).wireChron).closed = true ∧
+      ∀ (t' : Nat) (th' : Thr), (run (init c) sched).thr[t']? = some th' → th'.pc = .done := by
+  obtain ⟨h1, h2, h3⟩ := (maximal_runs_complete c hc hs sched hterm).2.2 t p hp hcl
+  refine ⟨?_, h1, h2⟩
+  rcases h3 with h3 | ⟨th, hget, r, hr, hbad⟩
+  · exact h3
+  · obtain ⟨n, hn, _⟩ := lossless_no_call_fails c hc hs hl sched t th hget r hr
+    rw [hn] at hbad; cases hbad
 
 theorem accepted_trace_ok (c : Cfg) (hc : c.Safe) (hs : c.sessSeq ≤ 0xffffffff) (tr : List (Nat × Act))
     (s : Sys) (h : replay (init c) tr = .ok s) : accepts s.wireChron s.results = true := by
@@ -277,9 +352,10 @@ theorem accepted_trace_ok (c : Cfg) (hc : c.Safe) (hs : c.sessSeq ≤ 0xffffffff
 /-- The close-free case (the first version of this file): in the variant AS SHIPPED (`join = false`)
 every clause holds for every schedule as long as no thread closes the session. -/
 theorem shipped_without_close_holds (c : Cfg) (_hj : c.join = false) (hcl : c.closer = none)
-    (hcmd : ∀ p ∈ c.threads, p.2 ≠ closeCmd) (hs : c.sessSeq ≤ 0xffffffff) (sched : List Nat) :
+    (hcmd : ∀ p ∈ c.threads, p.2 ≠ closeCmd) (hp : c.packOnce = false ∨ c.maxRetries = 0)
+    (hs : c.sessSeq ≤ 0xffffffff) (sched : List Nat) :
     Inv (run (init c) sched) ∧ accepts (run (init c) sched).wireChron (run (init c) sched).results = true :=
-  have hc : c.Safe := ⟨Or.inr hcl, hcmd⟩
+  have hc : c.Safe := ⟨Or.inr hcl, hcmd, hp⟩
   ⟨(inv_all_schedules c hc hs sched).1, monitor_accepts_all_schedules c hc hs sched⟩
 
 /-! ### the variant as shipped, with a thread that closes the session (defect C14-1) -/
@@ -315,9 +391,84 @@ theorem joined_same_schedule_is_clean :
     accepts (run (init joinedCfg) lateTickSchedJoined).wireChron
       (run (init joinedCfg) lateTickSchedJoined).results = true :=
   ⟨by decide +kernel, by decide +kernel, by decide +kernel,
-   monitor_accepts_all_schedules joinedCfg ⟨Or.inl rfl, by decide⟩ (by decide) lateTickSchedJoined⟩
+   monitor_accepts_all_schedules joinedCfg ⟨Or.inl rfl, by decide, Or.inl rfl⟩ (by decide) lateTickSchedJoined⟩
+
+/-! ### the variant "session wrapper built once, before the retry loop" (not the source) -/
+
+/-- two threads, one Get Device ID each, `Rmcp(max_retries=1)`, the reply to the first datagram is lost; the
+session wrapper is built ONCE per request, before the retry loop -/
+def onceCfg : Cfg :=
+  { nextSeq := 4, sessSeq := 7, xl := 0, threads := [(1, 1), (1, 1)], maxRetries := 1, loss := [true], packOnce := true }
+/-- the same with the packing of the source: `_send_ipmi_msg` packs for every attempt -/
+def repackCfg : Cfg := { onceCfg with packOnce := false }
+/-- thread 0 runs its call (time-out, retransmission, reply), then thread 1 -/
+def retrySched : List Nat := List.replicate 20 0 ++ List.replicate 14 1
+
+/-- Built once before the loop, the retransmission carries the session sequence number of the datagram it
+repeats: the wire shows 8, 8, 9 — clause (S) is false on this run (the other clauses hold: nothing is interleaved,
+every caller gets its own reply). -/
+theorem packOnce_retransmission_repeats_session_seq :
+    (run (init onceCfg) retrySched).wireChron =
+      [.tx 0 0 8 5 1, .to 0 0, .tx 0 1 8 5 1, .rx 0 1, .tx 1 2 9 6 1, .rx 1 2] ∧
+    seqIncreasing (run (init onceCfg) retrySched).wireChron = false ∧
+    exchangesOk (run (init onceCfg) retrySched).wireChron = true ∧
+    ownReply (run (init onceCfg) retrySched).wireChron (run (init onceCfg) retrySched).results = true ∧
+    allDone (run (init onceCfg) retrySched) = true :=
+  ⟨by decide +kernel, by decide +kernel, by decide +kernel, by decide +kernel, by decide +kernel⟩
+
+/-- The same configuration, loss and schedule with the per-attempt packing of the source: 8, 9, 10. -/
+theorem repacked_same_schedule_is_clean :
+    (run (init repackCfg) retrySched).wireChron =
+      [.tx 0 0 8 5 1, .to 0 0, .tx 0 1 9 5 1, .rx 0 1, .tx 1 2 10 6 1, .rx 1 2] ∧
+    (run (init repackCfg) retrySched).results = [⟨0, 1, some 1⟩, ⟨1, 2, some 2⟩] ∧
+    allDone (run (init repackCfg) retrySched) = true ∧
+    accepts (run (init repackCfg) retrySched).wireChron (run (init repackCfg) retrySched).results = true :=
+  ⟨by decide +kernel, by decide +kernel, by decide +kernel,
+   monitor_accepts_all_schedules repackCfg ⟨Or.inl rfl, by decide, Or.inl rfl⟩ (by decide) retrySched⟩
 
 /-! ### non-vacuity -/
+
+-- retransmissions by the keep-alive AND of Close Session (MD5 packing, `max_retries = 2`): the keep-alive's first
+-- reply is lost, Close Session's first two are; the closing thread waits in the join meanwhile; 8 9 | 10 11 12
+def kaCloseLossCfg : Cfg :=
+  { nextSeq := 4, sessSeq := 7, xl := 1, threads := [(0, 1)], ka := some 1, closer := some 0, maxRetries := 2,
+    loss := [true, false, true, true] }
+def kaCloseLossSched : List Nat := [1] ++ List.replicate 4 0 ++ List.replicate 40 1 ++ List.replicate 60 0
+example : kaCloseLossCfg.Safe := ⟨Or.inl rfl, by decide, Or.inl rfl⟩
+example : (run (init kaCloseLossCfg) kaCloseLossSched).wireChron =
+    [.tx 1 0 8 5 1, .to 1 0, .tx 1 1 9 5 1, .rx 1 1,
+     .tx 0 2 10 6 0x3c, .to 0 2, .tx 0 3 11 6 0x3c, .to 0 3, .tx 0 4 12 6 0x3c, .rx 0 4] := by decide +kernel
+example : (run (init kaCloseLossCfg) kaCloseLossSched).activated = false ∧
+    allDone (run (init kaCloseLossCfg) kaCloseLossSched) = true := ⟨by decide +kernel, by decide +kernel⟩
+-- the budget used up (two replies lost in a row with `max_retries = 1`, across the 32-bit wrap): the call ends in
+-- an error, the lock is released, the next caller is served: 0xffffffff 1 | 2
+def exhaustCfg : Cfg :=
+  { nextSeq := 4, sessSeq := 0xfffffffe, xl := 0, threads := [(1, 1), (1, 4)], maxRetries := 1, loss := [true, true] }
+example : (run (init exhaustCfg) retrySched).wireChron =
+    [.tx 0 0 0xffffffff 5 1, .to 0 0, .tx 0 1 1 5 1, .to 0 1, .tx 1 2 2 6 4, .rx 1 2] := by decide +kernel
+example : (run (init exhaustCfg) retrySched).results = [⟨0, 1, none⟩, ⟨1, 2, some 2⟩] := by decide +kernel
+example : accepts (run (init exhaustCfg) retrySched).wireChron (run (init exhaustCfg) retrySched).results = true :=
+  monitor_accepts_all_schedules exhaustCfg ⟨Or.inl rfl, by decide, Or.inl rfl⟩ (by decide) retrySched
+-- the monitor's new clauses are not trivially true
+example : seqIncreasing [.tx 0 0 8 5 1, .to 0 0, .tx 0 1 8 5 1, .rx 0 1] = false := by decide
+example : exchangesOk [.tx 0 0 8 5 1, .to 1 0, .tx 0 1 9 5 1, .rx 0 1] = false := by decide
+example : exchangesOk [.tx 0 0 8 5 1, .tx 0 1 9 5 1, .rx 0 1] = false := by decide
+example : ownReply [.tx 0 0 8 5 1, .rx 0 0] [⟨0, 0, none⟩] = false := by decide
+example : ownReply [.tx 0 0 8 5 1, .to 0 0] [⟨0, 0, none⟩] = true := by decide
+example : closeLast [.tx 0 0 8 1 0x3c, .to 0 0, .tx 0 1 9 1 0x3c, .rx 0 1] = true := by decide
+example : closeLast [.tx 0 0 8 1 0x3c, .to 0 0, .tx 1 1 9 1 0x3c, .rx 1 1] = false := by decide
+example : closeLast [.tx 0 0 8 1 0x3c, .to 0 0, .tx 0 1 9 1 1, .rx 0 1] = false := by decide
+-- the model accepts the logged accesses of a retransmission (pack again) and rejects "transmit the stored datagram"
+example : (replay (init repackCfg) [(0, .acq), (0, .ldNS 4), (0, .stNS 5), (0, .ldNS 5), (0, .ldAct true), (0, .ldSS 7),
+    (0, .stSS 8), (0, .ldSS 8), (0, .ldSS 8), (0, .tx 0 8 5 1), (0, .rxTimeout), (0, .ldAct true), (0, .ldSS 8),
+    (0, .stSS 9), (0, .ldSS 9), (0, .ldSS 9), (0, .tx 1 9 5 1), (0, .rx 1), (0, .rel)]).toOption.isSome = true := by
+  decide +kernel
+example : (replay (init repackCfg) [(0, .acq), (0, .ldNS 4), (0, .stNS 5), (0, .ldNS 5), (0, .ldAct true), (0, .ldSS 7),
+    (0, .stSS 8), (0, .ldSS 8), (0, .ldSS 8), (0, .tx 0 8 5 1), (0, .rxTimeout), (0, .tx 1 8 5 1)]).toOption = none := by
+  decide +kernel
+example : (replay (init onceCfg) [(0, .acq), (0, .ldNS 4), (0, .stNS 5), (0, .ldNS 5), (0, .ldAct true), (0, .ldSS 7),
+    (0, .stSS 8), (0, .ldSS 8), (0, .ldSS 8), (0, .tx 0 8 5 1), (0, .rxTimeout), (0, .tx 1 8 5 1)]).toOption.isSome
+    = true := by decide +kernel
 
 -- the same two threads and the same schedules with the sequence number allocated inside the lock block:
 -- thread 1 cannot enter while thread 0 is between "take the lock" and "release" - the datagrams carry 5 and 6
@@ -339,7 +490,7 @@ def wrapCfg : Cfg :=
   { nextSeq := 63, sessSeq := 0xfffffffe, xl := 1, threads := [(2, 1), (1, 4)], ka := some 1, seqLocked := false }
 def wrapSched : List Nat :=
   [2, 0, 0, 1, 0, 1, 1, 2, 2] ++ List.replicate 40 1 ++ List.replicate 40 0 ++ List.replicate 40 2
-example : wrapCfg.Safe := ⟨Or.inl rfl, by decide⟩
+example : wrapCfg.Safe := ⟨Or.inl rfl, by decide, Or.inl rfl⟩
 example : (run (init wrapCfg) wrapSched).wireChron.filterMap
     (fun e => match e with | .tx _ _ s _ _ => some s | _ => none) = [0xffffffff, 1, 2, 3] := by decide +kernel
 -- … at the end the workers are finished and the keep-alive loop is asleep in `wait` (nobody stopped it)
@@ -353,7 +504,7 @@ def closeCfg : Cfg :=
 def closeSched : List Nat :=
   [3, 2, 2, 0, 3, 3] ++ List.replicate 14 2 ++ List.replicate 14 3 ++ List.replicate 14 0 ++ List.replicate 14 1 ++
     List.replicate 30 2 ++ List.replicate 14 3 ++ List.replicate 30 2
-example : closeCfg.Safe := ⟨Or.inl rfl, by decide⟩
+example : closeCfg.Safe := ⟨Or.inl rfl, by decide, Or.inl rfl⟩
 example : allDone (run (init closeCfg) closeSched) = true := by decide +kernel
 example : (run (init closeCfg) closeSched).activated = false := by decide +kernel
 example : (run (init closeCfg) closeSched).wireChron.filterMap
